@@ -44,6 +44,9 @@ def run(run_):
     for n in res["NAMES"]:
         run_.violation("NoteToPitch/NoteToOctave(%d) = %r/%r differs from the model's name" % (n, out["pitch"][n] if n < len(out["pitch"]) else None, out["octave"][n] if n < len(out["octave"]) else None),
                        {"call": "config.NoteToPitch/NoteToOctave", "input": n})
+    for s in (out.get("unstable") or [])[:3]:
+        run_.violation("StringToNote(%r) gives a different answer when evaluated again after the other strings of the sweep: the answer may depend on the "
+                       "string only" % s_of(s), {"call": "config.StringToNote (twice, other strings in between)", "input_bytes": s, "input": s_of(s)})
     for p in out["panics"]:
         run_.violation("StringToNote panicked on %s" % p, {"call": "config.StringToNote", "input": p})
     run_.coverage.update({
